@@ -13,6 +13,8 @@ import (
 	"fmt"
 	"os"
 	"path/filepath"
+	"strconv"
+	"strings"
 
 	"com.tuntun.rangers/node/src/common"
 	"com.tuntun.rangers/node/src/middleware/db"
@@ -51,12 +53,16 @@ func senderAddr(s int) string {
 func newHistory(universe []txRec, nonces map[int]int) {
 	histNo++
 	// empty the pool: everything still pending is evicted
-	pend := pool.GetReceived()
-	if len(pend) > 0 {
-		ev := make([]common.Hash, 0, len(pend))
-		for _, t := range pend {
-			ev = append(ev, t.Hash)
-		}
+	// (by the hashes of the previous history, not by what the pool lists: the listing is one of
+	// the things under test)
+	ev := make([]common.Hash, 0, len(txs))
+	for _, t := range txs {
+		ev = append(ev, t.Hash)
+	}
+	for _, t := range pool.GetReceived() {
+		ev = append(ev, t.Hash)
+	}
+	if len(ev) > 0 {
 		pool.MarkExecuted(&types.BlockHeader{}, nil, nil, ev)
 	}
 	if pool.TxNum() != 0 {
@@ -206,6 +212,7 @@ func main() {
 	scratch := flag.String("scratch", "", "")
 	conc := flag.String("conc", "", "TLC schedules of concurrent pool calls (spec/TxPoolConc.tla)")
 	salt := flag.Int64("salt", 0, "")
+	sizes := flag.String("sizes", "", "comma-separated block sizes for the block-size boundary histories")
 	flag.Parse()
 	if *scratch == "" {
 		vutil.Fatalf("--scratch required")
@@ -297,6 +304,29 @@ func main() {
 		calls += runHistory(tr, universe, nonces, h)
 		nh++
 	}
+	// block-size boundaries: a block of exactly k transactions (k around the pool's internal batch
+	// sizes and the per-block limit) is packed, booked, looked up, re-submitted, removed by a reorg
+	// and booked again
+	if *sizes != "" {
+		for _, f := range strings.Split(*sizes, ",") {
+			k, err := strconv.Atoi(strings.TrimSpace(f))
+			if err != nil || k <= 0 {
+				vutil.Fatalf("bad --sizes entry %q", f)
+			}
+			universe := make([]txRec, 0, k)
+			for i := 0; i < k; i++ {
+				universe = append(universe, txRec{9, 0, 1 + i})
+			}
+			h := make([]op, 0, k+12)
+			for i := 0; i < k; i++ {
+				h = append(h, op{"Add", i + 1})
+			}
+			h = append(h, op{"PackMark", 0}, op{"Pack", 0}, op{"Add", 1}, op{"Add", k}, op{"Add", (k + 1) / 2}, op{"Add", min(k, 100)}, op{"Add", min(k, 101)},
+				op{"UnMarkLast", 0}, op{"Pack", 0}, op{"PackMark", 0}, op{"Pack", 0}, op{"Add", k})
+			calls += runHistory(tr, universe, map[int]int{9: 0}, h)
+			nh++
+		}
+	}
 	nconc := 0
 	if concAbs != "" {
 		nconc = concMode(tr, concAbs)
@@ -310,4 +340,11 @@ func boolInt(b bool) int {
 		return 1
 	}
 	return 0
+}
+
+func min(a, b int) int {
+	if a < b {
+		return a
+	}
+	return b
 }
